@@ -512,6 +512,9 @@ class ElementList(MutableSequence):
 
         :return: an instance of :class:`ElementProxy <hl7apy.core.ElementProxy>` containing the results
         """
+        if name not in self.indexes and name not in self.traversal_indexes and \
+                (name.upper() in self.indexes or name.upper() in self.traversal_indexes):
+            name = name.upper()  # children are kept under their upper case names, whatever the spelling asked for
         if name in self.indexes or name in self.traversal_indexes:
             try:
                 return self.proxies[name]
